@@ -278,6 +278,10 @@ def run(ctx):
                       "logging argument is the literal %s" % (e[3] if e[0] == "const" else "?"),
                       "Lexer::advance is called with a non-literal logging flag", site=b.where(bi))
 
+    # row re-use watermark (shared with C11-R3): speculative rows are re-used only below rows_valid_end
+    from . import c11 as _c11
+    _c11.watermark_values(ctx, "C01-R2")
+
     # ------------------------------------------------------------------ R3 EOS guard
     cm = ctx.body(TP + "::compute_mask_inner")
     eos_sites = []
